@@ -160,6 +160,57 @@ pub fn norm_sheet_quotes(s: &str) -> String {
     out
 }
 
+/// Formula texts equal up to blank runs that cannot be intersection operators (a blank run is significant
+/// iff both neighbours can end / start an operand).  String literals and quoted sheet names are compared verbatim.
+pub fn formula_eq_mod_blanks(a: &str, b: &str) -> bool {
+    fn canon(s: &str) -> String {
+        let cs: Vec<char> = s.chars().collect();
+        let mut out = String::new();
+        let mut i = 0;
+        while i < cs.len() {
+            let c = cs[i];
+            if c == '"' || c == '\'' {
+                // copy the quoted run verbatim (doubled quote = escaped quote)
+                out.push(c);
+                i += 1;
+                while i < cs.len() {
+                    out.push(cs[i]);
+                    if cs[i] == c {
+                        if i + 1 < cs.len() && cs[i + 1] == c {
+                            out.push(c);
+                            i += 2;
+                            continue;
+                        }
+                        i += 1;
+                        break;
+                    }
+                    i += 1;
+                }
+                continue;
+            }
+            if c == ' ' || c == '\n' || c == '\r' || c == '\t' {
+                let mut j = i;
+                while j < cs.len() && (cs[j] == ' ' || cs[j] == '\n' || cs[j] == '\r' || cs[j] == '\t') {
+                    j += 1;
+                }
+                let prev = out.chars().last();
+                let next = cs.get(j).cloned();
+                let ends = prev.map(|p| p.is_alphanumeric() || p == ')' || p == '"' || p == '\'' || p == '!' || p == '_' || p == '.').unwrap_or(false);
+                let starts = next.map(|n| n.is_alphanumeric() || n == '(' || n == '"' || n == '\'' || n == '$' || n == '_').unwrap_or(false);
+                if ends && starts {
+                    out.push(' ');
+                }
+                i = j;
+                continue;
+            }
+            out.push(c);
+            i += 1;
+        }
+        out
+    }
+    a == b || canon(a) == canon(b)
+}
+
 pub struct Diff {
     pub clause: &'static str,
     pub symptom: String,
@@ -234,7 +285,7 @@ pub fn compare_model_p(model: &Value, p: &Value) -> Vec<Diff> {
                             }
                         }
                     }
-                    if d["formula"].as_str().unwrap_or("") != formula {
+                    if !formula_eq_mod_blanks(d["formula"].as_str().unwrap_or(""), formula) {
                         out.push(Diff { clause: "decoder-formulas", symptom: "formula-text".into(), detail: format!("sheet {:?} {}: model formula {:?} file {:?}", sname, k, formula, d["formula"]) });
                     }
                 }
